@@ -117,7 +117,10 @@ pub fn c14(tier: Tier) -> ! {
                     if fx.abs() > 0.6 || fy.abs() > 0.6 {
                         continue;
                     }
-                    for k in 0..=4i64 {
+                    for &k in [0i64, 1, 2, 3, 4, 5, 7, 12].iter() {
+                        if k > 4 && (fx != 0.1 || ri > 1) {
+                            continue;
+                        }
                         for &zero in [false, true].iter() {
                             evals += 1;
                             let imgs: Vec<Aff> = cell.periodic_images(t, k, zero).map(|i| Aff::from_t2(&i)).collect();
@@ -177,7 +180,7 @@ pub fn c14(tier: Tier) -> ! {
     run.set("cells", cells.len() as u64);
     run.set("images_compared", images);
     run.set("exhaustive", true);
-    run.set("rule", "complete product: 5 lengths x 5 ratios x 6 angles (incl. obtuse 2.0 via JSON) x 4 family tags; 9x9 fractional points in [-1.5,1.5]^2; 5 rotations (alternately mirrored); shells 0..4; zero flag both. Every evaluation is a distinct (cell, point, placement, shells, flag) tuple compared with xA+yB, the multiset {T+nA+mB} and |AxB|");
+    run.set("rule", "complete product: 5 lengths x 5 ratios x 6 angles (incl. obtuse 2.0 via JSON) x 4 family tags; 9x9 fractional points in [-1.5,1.5]^2; 5 rotations (alternately mirrored); shells 0..4 everywhere and 5, 7, 12 on a sub-grid; zero flag both. Every evaluation is a distinct (cell, point, placement, shells, flag) tuple compared with xA+yB, the multiset {T+nA+mB} and |AxB|");
     run.sample(json!({"cell": {"length": 3.7, "ratio": 0.34, "angle": 1.3, "family": "Monoclinic"}, "frac": [-0.25, 0.5], "rot": 0.3, "shells": 3, "zero": false}));
     run.finish()
 }
@@ -307,12 +310,47 @@ pub fn c15(tier: Tier) -> ! {
             run.fail(None, &w, c);
         }
     }
-    run.set("evaluations", evals);
+    // a live object must give the placements a freshly read object with the same numbers gives,
+    // after every single-parameter edit (what the optimiser does to it thousands of times)
+    let mut live_checks = 0u64;
+    for g in GROUP_NAMES.iter() {
+        for spec in [ShapeSpec::Polygon(3), ShapeSpec::LjTrimer(0.637556, 120., 1.)].iter() {
+            let sj = spec.json();
+            let tpl = StateTemplate::new(g, &sj);
+            let p0 = Params { length: 9., ratio: 0.8, angle: if ita_family(g) == "Monoclinic" { 1.3 } else { PI / 2. }, x: 0.11, y: -0.23, phi: 0.4 };
+            let live = AnyState::from_json(&tpl.with(&p0)).unwrap();
+            let nb = live.basis_values().len();
+            // touch every parameter several times, orientation-only and position-only moves interleaved
+            let edits: Vec<(usize, f64)> = vec![
+                (nb - 1, 1.1), (nb - 1, 2.9), (nb - 3, -0.31), (nb - 1, 0.2), (nb - 2, 0.5), (nb - 3, 0.5), (nb - 1, 6.1),
+                (0, 7.5), (1, 0.6), (nb - 1, 3.3), (0, 6.9), (nb - 2, -0.5), (nb - 3, -0.5), (nb - 1, 0.), (1, 0.35), (nb - 3, 0.25), (nb - 1, 4.4),
+            ];
+            let _ = live.relative();
+            for (step, (idx, val)) in edits.iter().enumerate() {
+                live.set_basis_value(*idx, *val);
+                live_checks += 1;
+                let doc = live.to_json();
+                let fresh = AnyState::from_json(&doc).unwrap();
+                let same = |a: &Vec<Aff>, b: &Vec<Aff>| a.len() == b.len() && a.iter().zip(b.iter()).all(|(p, q)| p.m == q.m && p.t[0].to_bits() == q.t[0].to_bits() && p.t[1].to_bits() == q.t[1].to_bits());
+                if !same(&live.relative(), &fresh.relative()) || !same(&live.cartesian(), &fresh.cartesian()) {
+                    run.fail(None, &format!("{} {}: after edit {} (parameter {} := {}) the live object places its copies differently from a freshly read object with the same numbers", g, spec.label(), step + 1, idx, val), json!({"group": g, "shape": spec.label(), "edits": edits[..=step].to_vec(), "state": doc}));
+                    break;
+                }
+                let (ls, fs) = (live.score(), fresh.score());
+                if ls.map(|x| x.to_bits()) != fs.map(|x| x.to_bits()) {
+                    run.fail(None, &format!("{} {}: after edit {} the live object scores {:?}, a freshly read object with the same numbers {:?}", g, spec.label(), step + 1, ls, fs), json!({"group": g, "shape": spec.label(), "edits": edits[..=step].to_vec(), "state": doc}));
+                    break;
+                }
+            }
+        }
+    }
+    run.set("live_object_edits_compared", live_checks);
+    run.set("evaluations", evals + live_checks);
     run.set("distinct_nontrivial", evals);
     run.set("placements_exactly_on_lower_face", edge);
     run.set("coordinate_values", coords.len() as u64);
     run.set("exhaustive", true);
-    run.set("rule", "complete product: 7 groups x coordinate list squared (0, -0.0, +-1e-300, +-2^-60, +-1e-17, +-0.1, +-0.25, +-0.375, +-(1/2 -ulp), +-1/2, +-(1/2+ulp), +-0.75, +-1, +-1.5, +-7.25, +-(2-ulp); thorough adds a 40-point grid and 39 ulp steps either side of +-1/2) x 7 orientations, plus 6 lattice/2pi-shifted re-descriptions of every in-range site. Each evaluation is a distinct site; placements are matched one-to-one with an independent table of the group's operations");
+    run.set("rule", "complete product: 7 groups x coordinate list squared (0, -0.0, +-1e-300, +-2^-60, +-1e-17, +-0.1, +-0.25, +-0.375, +-(1/2 -ulp), +-1/2, +-(1/2+ulp), +-0.75, +-1, +-1.5, +-7.25, +-(2-ulp); thorough adds a 40-point grid and 39 ulp steps either side of +-1/2) x 7 orientations, plus 6 lattice/2pi-shifted re-descriptions of every in-range site. Each evaluation is a distinct site; placements are matched one-to-one with an independent table of the group's operations; plus 17 single-parameter edits of a live object per (group, state kind), each compared bit for bit with a freshly read object");
     run.sample(json!({"group": "p2mg", "x": 0.5, "y": below_half, "phi": 0.3}));
     run.require(edge > 0, "no placement landed exactly on the cell face");
     run.finish()
@@ -501,6 +539,47 @@ pub fn c13(tier: Tier) -> ! {
             }
         }
     }
+    // two molecules of different geometry, both argument orders (custom molecules through the
+    // public fields: a single particle, a 7-particle rod, an L of unlike particles)
+    let mut zoo: Vec<LJShape2> = mols.clone();
+    zoo.push(LJShape2 { name: "single".into(), items: vec![lj(0., 0., 1., 1., Some(2.5))] });
+    zoo.push(LJShape2 { name: "rod".into(), items: (0..7).map(|k| lj(k as f64 * 1.1 - 3.3, 0., 1., 1., Some(2.5))).collect() });
+    zoo.push(LJShape2 { name: "L".into(), items: vec![lj(0., 0., 1.2, 2., Some(3.)), lj(1.3, 0., 0.9, 0.5, Some(3.)), lj(0., 1.6, 1., 1., None)] });
+    for (ia, a) in zoo.iter().enumerate() {
+        for (ib, b) in zoo.iter().enumerate() {
+            if ia == ib {
+                continue;
+            }
+            for k in 0..48 {
+                let rot = k as f64 * 0.53;
+                let dist = 0.9 + (k % 12) as f64 * 0.55;
+                let dir = k as f64 * 0.77;
+                let t = Transform2::new(rot, (dist * dir.cos(), dist * dir.sin()));
+                let other = b.transform(&t);
+                // the pair law is defined for r > 0 only
+                if a.items.iter().any(|x| other.items.iter().any(|y| (x.position - y.position).norm() < 1e-3)) {
+                    continue;
+                }
+                evals += 1;
+                mol_evals += 1;
+                let total = a.energy(&other);
+                let back = other.energy(a);
+                let mut sum = 0.;
+                for x in a.items.iter() {
+                    for y in other.items.iter() {
+                        sum += x.energy(y);
+                    }
+                }
+                let case = json!({"molecule_a": ia, "molecule_b": ib, "placement": k});
+                if !((total - sum).abs() <= 1e-9 * (1. + sum.abs())) {
+                    run.fail(None, &format!("energy of two different molecules {} is not the sum over particle pairs {}", total, sum), case.clone());
+                }
+                if !((total - back).abs() <= 1e-9 * (1. + sum.abs())) {
+                    run.fail(None, &format!("energy of two different molecules depends on the argument order: {} vs {}", total, back), case);
+                }
+            }
+        }
+    }
     run.set("molecule_evaluations", mol_evals);
     // trimer construction: sigma = 2 radius, cutoff set
     for &(r, a, d) in [(0.637556, 120., 1.), (2., 180., 0.5), (0.3, 60., 2.)].iter() {
@@ -513,7 +592,7 @@ pub fn c13(tier: Tier) -> ! {
     run.set("evaluations", evals);
     run.set("distinct_nontrivial", nontrivial.len() as u64 + unlike + mol_evals);
     run.set("exhaustive", true);
-    run.set("rule", "complete product: sigma {0.5,1,1.275112,1.4,2} x epsilon {0.25,1,3} x cutoff {none,1,2.5,3.5} x r on a geometric ladder 0.5..6 sigma plus 2^(1/6) sigma and cutoff +-ulp x 8 directions x 6 rigid motions/reflections (like particles, closed form); all unlike (sigma,epsilon,cutoff) pairs x 24 distances in both argument orders; 5 molecules x 64 relative placements. distinct_nontrivial counts distinct (sigma, epsilon, cutoff, r) tuples plus unlike-pair and molecule cases");
+    run.set("rule", "complete product: sigma {0.5,1,1.275112,1.4,2} x epsilon {0.25,1,3} x cutoff {none,1,2.5,3.5} x r on a geometric ladder 0.5..6 sigma plus 2^(1/6) sigma and cutoff +-ulp x 8 directions x 6 rigid motions/reflections (like particles, closed form); all unlike (sigma,epsilon,cutoff) pairs x 24 distances in both argument orders; 5 molecules x 64 relative placements; every ordered pair of 8 different molecules (incl. a single particle, a rod, an L of unlike particles) x 48 placements. distinct_nontrivial counts distinct (sigma, epsilon, cutoff, r) tuples plus unlike-pair and molecule cases");
     run.assume("for unlike particles the property fixes no mixing rule; only symmetry, motion invariance and zero beyond both cutoffs are required of them");
     run.finish()
 }
@@ -555,7 +634,7 @@ pub fn c12_shapes(tier: Tier) -> Vec<(String, ShapeSpec)> {
             v.push((format!("trimer({},{},{})", r, a, d), ShapeSpec::Trimer(r, a, d)));
         }
     }
-    for radii in [vec![1., 0.8, 1.], vec![1., 0.6, 1., 0.6], vec![1., 0.9, 0.8, 0.9], vec![1., 0.7, 1., 0.7, 1., 0.7], vec![2., 1.5, 2., 1.5, 2.]].iter() {
+    for radii in [vec![1., 0.8, 1.], vec![1., 0.6, 1., 0.6], vec![0.5, 1., 0.5, 1.], vec![1., 0.9, 0.8, 0.9], vec![1., 0.7, 1., 0.7, 1., 0.7], vec![2., 1.5, 2., 1.5, 2.], vec![0.8, 1., 1.]].iter() {
         v.push((format!("radial{:?}", radii), ShapeSpec::Radial(radii.clone())));
     }
     v.push(("circle".into(), ShapeSpec::Circle));
@@ -742,7 +821,7 @@ pub fn c12(tier: Tier) -> ! {
     run.set("wrong_answers_by_depth_decade", json!(hist_all));
     println!("wrong answers by depth decade: {:?}", hist_all);
     run.set("exhaustive", true);
-    run.set("rule", "complete product: 16 shapes (n-gons 3..8, 5 convex radial polygons, circle, 4 trimers) x 8 rotations (0, pi/n, 2pi/n, pi/2, pi, 3 generic) x mirror x translations {Cartesian grid over [-2.2R,2.2R]^2, aligned set (every vertex of B on every vertex of A and on eighths of every edge of A, eighths of every edge/diagonal vector, touching discs, coincident), each aligned one also shifted by +-0.5e-9 and +-2e-9} x argument order x 5 common motions. Non-trivial = placements whose separating-axis/disc-distance depth is outside the +-1e-9 band (the predicate's answer is prescribed there)");
+    run.set("rule", "complete product: 18 shapes (n-gons 3..8, 7 convex radial polygons incl. ones whose first vertex is not the farthest, circle, 4 trimers) x 8 rotations (0, pi/n, 2pi/n, pi/2, pi, 3 generic) x mirror x translations {Cartesian grid over [-2.2R,2.2R]^2, aligned set (every vertex of B on every vertex of A and on eighths of every edge of A, eighths of every edge/diagonal vector, touching discs, coincident), each aligned one also shifted by +-0.5e-9 and +-2e-9} x argument order x 5 common motions. Non-trivial = placements whose separating-axis/disc-distance depth is outside the +-1e-9 band (the predicate's answer is prescribed there)");
     run.sample(json!({"shape": "polygon4", "rotation": 0., "mirror": false, "translation": [1.0, 1.0], "note": "congruent squares displaced along the diagonal: every boundary crossing is at a vertex"}));
     run.require(over > 0 && sep > 0 && band > 0, "all three placement classes must occur");
     run.finish()
@@ -897,12 +976,48 @@ pub fn c02(tier: Tier) -> ! {
             run.fail(k, &w, c);
         }
     }
-    run.set("evaluations", evals);
+    // two states of the same shape are ranked by their real density (the order the CLI's max() uses)
+    let mut order_checks = 0u64;
+    for spec in [ShapeSpec::Polygon(4), ShapeSpec::Polygon(3), ShapeSpec::Circle, ShapeSpec::Trimer(0.637556, 120., 1.)].iter() {
+        let body = spec.body();
+        let sj = spec.json();
+        let mut pool: Vec<(AnyState, f64, String)> = vec![];
+        for g in GROUP_NAMES.iter() {
+            let n = ita_ops(g).len() as f64;
+            let tpl = StateTemplate::new(g, &sj);
+            for &(l, r) in [(30., 1.), (16., 0.5), (9., 0.8), (8.4, 0.3), (40., 0.25)].iter() {
+                let p = Params { length: l, ratio: r, angle: PI / 2., x: 0.13, y: 0.21, phi: 0.3 };
+                let st = AnyState::from_json(&tpl.with(&p)).unwrap();
+                if st.score().is_some() {
+                    pool.push((st, n * body.area() / p.lattice().area(), format!("{} l={} r={}", g, l, r)));
+                }
+            }
+        }
+        for (a, da, la) in pool.iter() {
+            for (b, db, lb) in pool.iter() {
+                if (da - db).abs() <= 1e-9 * da.max(*db) {
+                    continue;
+                }
+                order_checks += 1;
+                let got = match (a, b) {
+                    (AnyState::Poly(x), AnyState::Poly(y)) => x.partial_cmp(y),
+                    (AnyState::Mol(x), AnyState::Mol(y)) => x.partial_cmp(y),
+                    _ => None,
+                };
+                let want = da.partial_cmp(db);
+                if got != want {
+                    run.fail(None, &format!("{}: states ranked {:?} but their densities {} and {} rank {:?}", spec.label(), got, da, db, want), json!({"shape": spec.label(), "a": la, "b": lb}));
+                }
+            }
+        }
+    }
+    run.set("ordering_comparisons", order_checks);
+    run.set("evaluations", evals + order_checks);
     run.set("distinct_nontrivial", valid + shapes.len() as u64);
     run.set("scored_states", valid);
     run.set("shapes", shapes.len() as u64);
     run.set("exhaustive", true);
-    run.set("rule", "complete product: shapes {regular n-gons 3..12, 24, 100; radial polygons with radii in {0.5,1,2}^n, n=3..4 (quick) / 3..5 (thorough); circle; trimers radius {0.2,0.4,0.637556,0.7,1,1.5} x angle {30..180 step 30} x distance {0.3,0.6,1,1.5,2,2.5} plus 3 degenerate ones} x 7 groups x cells {length 0.5,1,3.7,8,100} x {ratio 1,0.73,0.34,0.1} x {angle pi/2,1.3,pi/3,pi/6 for oblique groups}. Non-trivial = states the crate scores (fraction compared with copies x oracle area / |AxB|) plus one area comparison per shape");
+    run.set("rule", "complete product: shapes {regular n-gons 3..12, 24, 100; radial polygons with radii in {0.5,1,2}^n, n=3..4 (quick) / 3..5 (thorough); circle; trimers radius {0.2,0.4,0.637556,0.7,1,1.5} x angle {30..180 step 30} x distance {0.3,0.6,1,1.5,2,2.5} plus 3 degenerate ones} x 7 groups x cells {length 0.5,1,3.7,8,100} x {ratio 1,0.73,0.34,0.1} x {angle pi/2,1.3,pi/3,pi/6 for oblique groups}. Non-trivial = states the crate scores (fraction compared with copies x oracle area / |AxB|) plus one area comparison per shape; plus every ordered pair of ~35 valid states of one shape across all groups and cell sizes compared through the states' own ordering");
     run.assume("polygon oracle area is the shoelace formula on the serialised vertices; disc-union oracle area is boundary-arc integration, self-tested against a raster at start-up");
     run.sample(json!({"group": "p2", "shape": "trimer(0.7,60,1)", "params": {"length": 8., "ratio": 0.73, "angle": 1.3, "x": 0.1, "y": 0.2, "phi": 0.3}}));
     run.require(valid > 1000, "too few scored states");
